@@ -114,3 +114,61 @@ func VIntersectWind(ct ClipType, fr FillRule, e1, e2 VEdge) (wc1, wc21, wc2, wc2
 	c.intersectEdges(ael[0], ael[1], Point64{})
 	return ael[0].windCount, ael[0].windCount2, ael[1].windCount, ael[1].windCount2
 }
+
+// VIntersectDecide runs the real intersectEdges on two adjacent closed edges whose hotness is given:
+// hot edges get output records (one shared record when same is set), front1 says whether e1 is the
+// front edge of its record; the other edge of a record that is not in the list is a placeholder.
+// It returns the winding counts, the hotness of both edges afterwards, the number of output
+// records created by the call and the engine's succeeded flag.
+func VIntersectDecide(ct ClipType, fr FillRule, e1, e2 VEdge, hot1, hot2, front1, same bool) (wc1, wc21, wc2, wc22 int, h1, h2 bool, newRecs int, ok bool) {
+	c := newClipperBase()
+	c.fillRule, c.clipType = fr, ct
+	c.succeeded = true
+	ael := vSynthAEL(c, []VEdge{e1, e2})
+	a1, a2 := ael[0], ael[1]
+	mkRec := func() *OutRec {
+		o := c.newOutRec()
+		o.pts = newOutPt(Point64{X: -1, Y: 1}, o)
+		return o
+	}
+	side := func(o *OutRec, ae *Active, front bool) {
+		ae.outrec = o
+		if front {
+			o.frontEdge = ae
+		} else {
+			o.backEdge = ae
+		}
+	}
+	placeholder := func(o *OutRec) {
+		d := vSynthActive(Subject, false, 1, 1, 0)
+		d.outrec = o
+		if o.frontEdge == nil {
+			o.frontEdge = d
+		} else {
+			o.backEdge = d
+		}
+	}
+	switch {
+	case hot1 && hot2 && same:
+		o := mkRec()
+		side(o, a1, front1)
+		side(o, a2, !front1)
+	case hot1 && hot2:
+		o1, o2 := mkRec(), mkRec()
+		side(o1, a1, front1)
+		placeholder(o1)
+		side(o2, a2, !front1)
+		placeholder(o2)
+	case hot1:
+		o := mkRec()
+		side(o, a1, front1)
+		placeholder(o)
+	case hot2:
+		o := mkRec()
+		side(o, a2, !front1)
+		placeholder(o)
+	}
+	before := len(c.outrecList)
+	c.intersectEdges(a1, a2, Point64{})
+	return a1.windCount, a1.windCount2, a2.windCount, a2.windCount2, a1.outrec != nil, a2.outrec != nil, len(c.outrecList) - before, c.succeeded
+}
